@@ -1,4 +1,5 @@
 #!/bin/bash
+mkdir -p /tmp/seed   # lock files of the helper scripts live here (not used by any registered command)
 # seedconfirm.sh <Cxx> — in the scratch worktree /tmp/seed/<Cxx> (patch applied by its author): run the demonstration with
 # the change (must fail) and without it (must pass), then restore the change. Prints WITH=<rc> WITHOUT=<rc>.
 ID=$1; WT=/tmp/seed/$ID
